@@ -9,46 +9,53 @@ Definition qstate := pstate Qi.
 Definition run_proj (d : nat) (psi : qstate) (Ls : list (list nat)) : list (pbranch Qi) :=
   measure_seq Qi qi_nrm Ls (pinitial Qi d psi).
 
+(* measurements and post-selections in program order *)
+Definition run_steps (d : nat) (psi : qstate) (sts : list pstep) : list (pbranch Qi) :=
+  run_psteps Qi qi_nrm sts (pinitial Qi d psi).
+
 Fixpoint lookup (v : vec) (phi : qstate) : option Qi :=
   match phi with [] => None | (u, a) :: r => if vec_eqb u v then Some a else lookup v r end.
 
 Definition tol : Q := 1 # 1000000000.
 Definition close (a b : Q) : bool := Qle_bool (Qabs (a - b)) (tol * (1 + Qabs a)).
 
-(* the implementation's amplitude x must be phi_v / sqrt(w), w = |phi|^2 > 0, decided without
-   square roots:  |x|^2 * w = |phi_v|^2,  x * conj(phi_v) real and positive *)
-Definition amp_ok (w : Q) (phi : qstate) (e : vec * Qi) : bool :=
+(* the implementation's amplitude x must be sqrt(c) * phi_v (c the scale of the branch, > 0),
+   decided without square roots:  |x|^2 = c * |phi_v|^2,  x * conj(phi_v) real and positive *)
+Definition amp_ok (c : Q) (phi : qstate) (e : vec * Qi) : bool :=
   let '(v, x) := e in
   match lookup v phi with
   | None => false
   | Some a =>
-      close (qi_nrm a) (qi_nrm x * w) &&
-      close 0 ((snd x * fst a - fst x * snd a) * w) &&
+      close (c * qi_nrm a) (qi_nrm x) &&
+      close 0 (snd x * fst a - fst x * snd a) &&
       negb (Qle_bool (fst x * fst a + snd x * snd a) 0)
   end.
 
 (* an observed branch: outcome, frequency, d of the state (None: no state left), the non-zero
-   entries of its state vector *)
+   entries of its state vector, the squared norm the implementation reports for the state *)
 Definition obranch := (vec * Q * option nat * list (vec * Qi))%type.
 
-Definition pbranch_ok (w0 : Q) (bs : list (pbranch Qi)) (o : obranch) : bool :=
+Definition pbranch_ok (bs : list (pbranch Qi)) (o : obranch) : bool :=
   let '(s, f, d, entries) := o in
   match find (fun b => vec_eqb (pb_out Qi b) s) bs with
   | None => false
   | Some b =>
-      let w := weight Qi qi_nrm (pb_phi Qi b) in
-      close (pb_freq Qi b) f && close (w / w0) f &&
+      close (pb_freq Qi b) f &&
       match d with
       | None => Nat.eqb (length (pb_reg Qi b)) 0
       | Some n => Nat.eqb (length (pb_reg Qi b)) n &&
                   Nat.eqb (length entries) (length (pb_phi Qi b)) &&
-                  forallb (amp_ok w (pb_phi Qi b)) entries
+                  forallb (amp_ok (pb_scale Qi b) (pb_phi Qi b)) entries
       end
   end.
 
-Definition proj_case_ok (d : nat) (psi : qstate) (Ls : list (list nat)) (obs : list obranch) : bool :=
-  let bs := run_proj d psi Ls in
-  Nat.eqb (length bs) (length obs) && forallb (pbranch_ok (weight Qi qi_nrm psi) bs) obs.
+(* the model branches against the observed ones, and the observed weight sum against the
+   squared norm of the state just before the last measurement as the model computes it
+   (exact_weights_sum / measure_branch_weights_sum) *)
+Definition proj_case_ok (d : nat) (psi : qstate) (sts : list pstep) (obs : list obranch) : bool :=
+  let bs := run_steps d psi sts in
+  Nat.eqb (length bs) (length obs) && forallb (pbranch_ok bs) obs &&
+  close (sumQ (map (pb_freq Qi) bs)) (sumQ (map (fun o => snd (fst (fst o))) obs)).
 
 (* sequential and joint measurement agree inside the model (evaluated; the theorem is
    ProjectProofs.sequential_eq_joint) *)
